@@ -44,8 +44,10 @@ func (l *SyncList[T]) Push(value T) {
 
 		if next == nil && atomic.CompareAndSwapPointer(&tailNode.next, next, node) {
 			// atomic.CompareAndSwapPointer(&l.tail, tail, node)
-			atomic.StorePointer(&l.tail, node)
+			// count the value before it becomes poppable: a Pop (which decrements) can only succeed once
+			// the tail has moved, so Len can never be observed below the number of stored values
 			atomic.AddInt64(&l.len, 1)
+			atomic.StorePointer(&l.tail, node)
 			return
 		}
 
